@@ -439,6 +439,44 @@ def cooperative_gp(h: Harness, rng):
                     f"{desc}: the program returned for species {which} is not well-typed for grammar {which}: {repr(p)[:160]}", [rounds, n1, n2, which])
 
 
+def dsge_wrapped_union_keys(h: Harness, rng):
+    """dynamic SGE keeps one gene list per symbol it expanded, Union types included; on grammars whose unions have wrapped / refined
+    alternatives (the key then mentions a refinement object) every mapped genotype can still be mutated and crossed over, and the
+    offspring map to well-typed programs"""
+    from linear import DSGE, safe
+    from geneticengine.random.sources import NativeRandomSource
+    for spec in corpus()[2:4]:
+        b = gram.build(spec)
+        g = b.extract()
+        line_spec = gram.spec_sx(spec)
+        r = NativeRandomSource(rng.randrange(10**6))
+        rep = DSGE(g, g.get_min_tree_depth() + 2)
+        for trial in range(h.n(12, 80)):
+            geno = rep.create_genotype(r)
+            if safe(lambda: rep.genotype_to_phenotype(geno))[0] != "ok":
+                continue
+            cur = geno
+            for k in range(8):
+                st, m = safe(lambda: rep.mutate(r, cur)) if k % 3 else safe(lambda: rep.crossover(r, cur, geno)[0])
+                h.count("dsge-wrapped-union-keys:operations")
+                h.seen(f"dsge-union:{sx(line_spec)[:20]}:{trial}:{k}", nontrivial=True)
+                if st == "err":
+                    h.fail("DynamicSGE.operators", "foreign-error" if m.startswith("foreign") else "operator-fails",
+                           f"{'mutation' if k % 3 else 'crossover'} of a mapped dynamic-SGE genotype raised {m} (gene-list keys: "
+                           f"{[str(kk)[:60] for kk in cur.dna][:6]})", [sx(line_spec), trial, k])
+                    break
+                if st != "ok":
+                    break
+                st2, p = safe(lambda: rep.genotype_to_phenotype(m))
+                if st2 == "ok":
+                    h.holds("DynamicSGE.genotype_to_phenotype", "ill-typed-program", ["prop_wt", line_spec, gram.canon(p, b)],
+                            f"offspring of a mapped genotype maps to an ill-typed program: {repr(p)[:200]}", [sx(line_spec), trial, k])
+                elif st2 == "err" and p.startswith("foreign"):
+                    h.fail("DynamicSGE.genotype_to_phenotype", "foreign-error", f"mapping an offspring failed with {p}", [sx(line_spec), trial, k])
+                    break
+                cur = m
+
+
 def corpus():
     """fixed witnesses of type shapes the generator only meets by luck: size-refined lists whose elements are lists /
     refined values / tuples / unions, nested wrappers"""
@@ -471,6 +509,7 @@ def run(h: Harness):
     int_literal_float_bounds(h, rng)
     boundary_genes(h, rng)
     cooperative_gp(h, rng)
+    dsge_wrapped_union_keys(h, rng)
     retarget_scenario(h, rng)
     for spec in corpus():
         b = gram.build(spec)
